@@ -10,7 +10,7 @@ META = {
                    'the operand sides are preserved (identifier left, or mirrored/commutative operator). R10.3: frame-slot opcodes are '
                    'emitted only for Local symbols, global-slot opcodes only for Global ones (CSA operand provenance). R10.4: no value '
                    'type that can sit in the constant pool can be mutated in place by the VM. R10.5: pool de-duplication compares tag and payload.'
-                   ' R10.7 pooled values are literal payloads built through constructors and conversions only. R10.8 expression statements end in Pop whatever kind of variable they assign.',
+                   ' R10.7 pooled values are literal payloads built through constructors and conversions only. R10.8 expression statements end in Pop whatever kind of variable they assign. R10.9 what counts as the same constant: equality compares tags first, immediates by the whole word, heap values by content.',
     'exhaustive': True,
     'not_decided': ["equality of whole program variants' results (a metamorphic relation over runs)"],
 }
